@@ -17,6 +17,41 @@ type scase struct {
 	Result string // JSON text of the result member ("" = an error answer)
 	Error  string // JSON text of the error member
 	Large  int    // > 0: "@LARGE@" inside Result stands for a text of that many bytes
+	// outside the statement (an answer Go cannot decode: the transports fail in their own ways): differences are counted
+	Outside bool
+}
+
+// number literals at the float64 edge: 2^53 and its neighbours, the int64 edge, exponent / fraction spellings of
+// integers, minus zero, decimals longer than a float64 holds
+var edgeNumbers = []string{"9007199254740993", "9007199254740992", "9007199254740991", "-9007199254740993", "9223372036854775807", "9223372036854775808",
+	"-9223372036854775808", "1e3", "12.0", "-0", "0.1000000000000000055511151231257827", "1.5", "123456789012345678901234567890", "1E2", "2.50", "1e21", "18446744073709551615"}
+
+// numberCases: each literal in every numeric position the typed results have.
+func numberCases(thorough bool) []scase {
+	var cs []scase
+	lits := edgeNumbers
+	for i, n := range lits {
+		k := fmt.Sprintf("num-%d", i)
+		add := func(method, pos, result string) {
+			cs = append(cs, scase{Label: method + ":" + pos + ":" + n, Method: method, Key: pos + "-" + k, Result: result})
+		}
+		add("resources/list", "size", `{"resources":[{"name":"r","uri":"verif://r","size":`+n+`},{"name":"s","uri":"verif://s","size":7}],"_meta":{"total":`+n+`}}`)
+		add("tools/call", "structured", `{"content":[],"structuredContent":{"n":`+n+`,"a":[`+n+`,{"deep":`+n+`}]},"_meta":{"progress":`+n+`,"progressToken":`+n+`}}`)
+		add("tools/call", "priority", `{"content":[{"type":"text","text":"x","annotations":{"audience":["user"],"priority":`+n+`}}]}`)
+		add("tools/list", "schema", `{"tools":[{"name":"a","inputSchema":{"type":"object","properties":{"x":{"type":"number","minimum":`+n+`,"maximum":`+n+`,"default":`+n+`,"enum":[`+n+`]}}}}]}`)
+		add("prompts/get", "meta", `{"messages":[],"_meta":{"n":`+n+`}}`)
+		add("resources/read", "meta", `{"contents":[{"uri":"verif://r","text":"t"}],"_meta":{"n":`+n+`}}`)
+		if thorough || i%4 == 0 {
+			add("initialize", "experimental", `{"protocolVersion":"2025-03-26","capabilities":{"experimental":{"x":{"n":`+n+`}}},"serverInfo":{"name":"fake","version":"0.1"},"_meta":{"n":`+n+`}}`)
+			add("tools/list", "maxLength", `{"tools":[{"name":"a","inputSchema":{"type":"object","properties":{"x":{"type":"string","maxLength":`+n+`,"minItems":`+n+`}}}}]}`)
+		}
+	}
+	if thorough {
+		// a number no float64 can hold: every transport fails, each in its own way (stdio by its timeout)
+		cs = append(cs, scase{Label: "tools/call:structured:1e400", Method: "tools/call", Key: "structured-overflow", Outside: true,
+			Result: `{"content":[],"structuredContent":{"n":1e400}}`})
+	}
+	return cs
 }
 
 const largeMark = "@LARGE@"
@@ -113,6 +148,7 @@ func buildCases(thorough bool) []scase {
 	add("initialize", "experimental", `{"protocolVersion":"2025-03-26","capabilities":{"experimental":{"x":{"y":[1,2]}},"logging":{}},"serverInfo":{"name":"é","version":""},"_meta":{"m":true}}`)
 	add("initialize", "result-empty", `{}`)
 	add("initialize", "result-null", `null`)
+	cs = append(cs, numberCases(thorough)...)
 	// JSON-RPC errors, each code, on every method
 	for _, m := range []string{"tools/call", "tools/list", "prompts/list", "prompts/get", "resources/list", "resources/read", "initialize"} {
 		for _, e := range rpcErrors {
